@@ -1,8 +1,16 @@
 import StunVerif.Props.C03
 import StunVerif.Props.C03Write
+import StunVerif.Props.SrcFnIter
 #print axioms StunVerif.C03.build_shape
 #print axioms StunVerif.C03.roundtrip
 #print axioms StunVerif.C03.typed_roundtrip
 #print axioms StunVerif.C03.class_method_roundtrip
 #print axioms StunVerif.C03.roundtrip_write_into
 #print axioms StunVerif.C03.sealed_write_into_validates
+#print axioms StunVerif.SrcFnIter.drop_drop_len
+#print axioms StunVerif.SrcFnIter.iterGo_succ_ok
+#print axioms StunVerif.SrcFnIter.iterGo_succ_err
+#print axioms StunVerif.SrcFnIter.next_spec
+#print axioms StunVerif.SrcFnIter.collect_eq
+#print axioms StunVerif.SrcFnIter.src_iter
+#print axioms StunVerif.SrcFnIter.src_iter_more_fuel
